@@ -8,8 +8,8 @@ import (
 	"golang.org/x/tools/go/ssa"
 
 	"verif/checker/internal/core"
-	"verif/checker/internal/load"
 	"verif/checker/internal/ir"
+	"verif/checker/internal/load"
 )
 
 func init() {
